@@ -10,7 +10,7 @@ import (
 
 func init() {
 	register("C12",
-		"Decides the structural premises of 'a closed connection answers with errors': every method of the connection's Writer method set (and Write) uses the output buffer only under IsActive()==true and returns Exception(ErrConnClosed) on the other branch, before anything else happens; the Reader methods consume only after waitRead returned nil and the wait loop maps the closing state to ErrEOF / ErrConnClosed without blocking (shared with C07); the enumerated panic sources on closed state are guarded (nil address, slot use in Release); an ErrEOF exception matches ErrConnClosed under errors.Is; Close is idempotent by the exactly-once premises of C05 (onClose always reaches the callback runner attempt and returns nil). Not decided: behaviour of arbitrary buffer methods on a recycled (nil-chain) buffer beyond the enumerated sources.",
+		"Decides the structural premises of 'a closed connection answers with errors': every method of the connection's Writer method set (and Write) uses the output buffer only under IsActive()==true and returns Exception(ErrConnClosed) on the other branch, before anything else happens; the Reader methods consume only after waitRead returned nil and the wait loop maps the closing state to ErrEOF / ErrConnClosed without blocking (shared with C07); the enumerated panic sources on closed state are guarded (nil address, slot use in Release); an ErrEOF exception matches ErrConnClosed under errors.Is; Close is idempotent by the exactly-once premises of C05 (onClose always reaches the callback runner attempt and returns nil). The sized reader methods dereference the read cursor only behind n>0 (a recycled buffer has a nil chain); the finalizer stops flushing before it frees anything. Not decided: behaviour of arbitrary buffer methods on a recycled (nil-chain) buffer beyond the enumerated sources.",
 		[]string{"sync/atomic is linearizable"},
 		func(r *Run) {
 			cfgs := []string{"linux"}
